@@ -435,7 +435,14 @@ func c05Batch(batchID int, seed uint64, n int) {
 				}
 				<-done
 				if lerr == nil {
-					// the late bystander must hold exactly from+1 .. from+40
+					// the late bystander must hold exactly from+1 .. from+40. The witness subscriber comes
+					// first in the fan-out, so its having message 40 does not mean the fan-out of message 40
+					// is over: the publisher's next round trip does (its processor is sequential).
+					wmu.Lock()
+					npr := countType(wpub.Log(), rc.PINGRESP)
+					wpub.SendPacket(&rc.Packet{Type: rc.PINGREQ})
+					wpub.WaitFor(func(l []rawclient.Event, closed bool) bool { return countType(l, rc.PINGRESP) > npr }, 10*time.Second)
+					wmu.Unlock()
 					late.SendPacket(&rc.Packet{Type: rc.PINGREQ})
 					late.WaitFor(func(l []rawclient.Event, closed bool) bool { return countType(l, rc.PINGRESP) >= 1 }, 10*time.Second)
 					var seen []uint32
